@@ -7,6 +7,7 @@ import (
 	"strings"
 	"testing/synctest"
 	"time"
+	"unicode/utf8"
 
 	zxcvbn "github.com/nbutton23/zxcvbn-go"
 	lib "github.com/whawty/auth/store"
@@ -92,6 +93,96 @@ func propC12(r *Run) {
 			w.rtPending = w.rtPending[1:]
 			w.deliverHTTP(p, "deliver")
 			return true
+		}
+		// concurrent epilogue (upgrades off or local, no policy): logins with the current password
+		// race with at most one password change per user. A login - and the upgrade it may queue -
+		// never changes WHICH password is stored: whatever the interleaving, a user whose change
+		// was acknowledged ends up with the new password, everybody else with the old one.
+		concurrentPhase := func() {
+			if !(mode != "remote" && minScore < 0 && r.Choose("concurrent-epilogue", 2) == 1) {
+				return
+			}
+			type chg struct {
+				c      *Call
+				old, n string
+			}
+			changes := map[string]*chg{}
+			admins := map[string]bool{}
+			aux0 := map[string]string{}
+			for _, u := range users {
+				admins[u], aux0[u] = model[u].Admin, model[u].Aux
+				if r.Choose("epi-change", 2) == 1 {
+					c := &Call{Kind: "update", Via: "agent", Agent: a.idx, User: u, PW: "epilogue-pw-of-" + u}
+					changes[u] = &chg{c, model[u].PW, c.PW}
+					w.addClient([]*Call{c})
+				}
+			}
+			nl := 2 + r.Choose("epi-logins", 6)
+			if r.Choose("epi-storm", 3) == 0 {
+				nl += 10 + r.Choose("epi-storm-size", 12) // more requests than the queues hold
+				// password changes for users that do not exist fail, but occupy the update queue
+				// (which local upgrades share) while they wait
+				for g := 0; g < 8+r.Choose("epi-ghost-updates", 8); g++ {
+					w.addClient([]*Call{{Kind: "update", Via: "agent", Agent: a.idx, User: fmt.Sprintf("ghost-%d", g), PW: "irrelevant"}})
+				}
+			}
+			for i := 0; i < nl; i++ {
+				u := users[r.Choose("epi-user", len(users))]
+				via := vias[r.Choose("epi-via", len(vias))]
+				pw := model[u].PW
+				if pw == "" || !utf8.ValidString(pw) {
+					via = "agent"
+				}
+				if pw == "" {
+					continue
+				}
+				w.addClient([]*Call{{Kind: "authenticate", Via: via, Agent: a.idx, User: u, PW: pw}})
+			}
+			w.runLoop(loopOpts{maxSteps: 2000, wClient: 3, wLoop: 3})
+			if wedge := w.drain(drainExtra); wedge != "" {
+				r.FailOther("C10", wedgeSignature(wedge), "%s", wedge)
+				return
+			}
+			d2, derr := lib.NewDirFromConfig(a.cfgPath)
+			if derr != nil {
+				r.Fail("harness/config", "%v", derr)
+			}
+			for _, u := range users {
+				want := model[u].PW
+				other := ""
+				if ch := changes[u]; ch != nil {
+					if ch.c.OK {
+						want, other = ch.n, ch.old
+					} else {
+						other = ch.n
+					}
+				}
+				okW, adm, _, _, _ := d2.Authenticate(u, want)
+				if !okW {
+					r.Fail("upgrade/changed-the-password", "after logins racing with password changes, %s no longer authenticates with %s (change acknowledged: %v); logins and upgrades never change which password is stored", u, simrt.Q(want), changes[u] != nil && changes[u].c.OK)
+				}
+				if other != "" && other != want {
+					if okO, _, _, _, _ := d2.Authenticate(u, other); okO {
+						r.Fail("upgrade/changed-the-password", "after logins racing with password changes, %s authenticates with %s, which is not the stored password", u, simrt.Q(other))
+					}
+				}
+				if okW && adm != admins[u] {
+					r.Fail("upgrade/admin-changed", "%s: admin flag changed from %v to %v", u, admins[u], adm)
+				}
+				for _, ext := range []string{".admin", ".user"} {
+					if b, ok := w.fs.Get(cfg.BaseDir + "/" + u + ext); ok {
+						if _, rest := FirstLine(string(b)); rest != aux0[u] {
+							r.Fail("upgrade/aux-changed", "%s: auxiliary data changed: %s -> %s", u, simrt.Q(aux0[u]), simrt.Q(rest))
+						}
+					}
+				}
+				model[u].PW = want
+			}
+			r.Count("probe:concurrent-login-and-change-epilogues")
+		}
+		burstFirst := r.Choose("burst-first", 2) == 1
+		if burstFirst {
+			concurrentPhase()
 		}
 		sets := cfg.SetMap()
 		def := sets[cfg.Default]
@@ -250,6 +341,9 @@ func propC12(r *Run) {
 				w.populateDirCopy(masterBase, cfg.BaseDir)
 			}
 			r.Nontrivial(fmt.Sprintf("%s|%s|%v|%d|%d|%s", mode, via, right, rec0.ParamID, cfg.Default, policyCond))
+		}
+		if !burstFirst {
+			concurrentPhase()
 		}
 		r.Sample(map[string]any{"upgrade_mode": mode, "policy": policyCond, "config": cfg.Desc(), "logins": trace, "master": w.rtMode})
 	})
